@@ -834,6 +834,13 @@ func runC16(r *Rand, tier string, o *Out) {
 			o.Fail("removal of an object whose hook removes other objects: "+strings.TrimPrefix(res, "fail:"), op+" => "+res+" "+crashReason(lastFailDetail))
 		}
 	}
+	for i := 0; i < 2; i++ {
+		res := o.Do("P", "svc.termwalk", true)
+		o.Count("op:registrations-while-the-subscribers-are-told")
+		if res != "ok" {
+			o.Fail("removal of an object with subscribers: "+strings.SplitN(strings.TrimPrefix(res, "fail:"), " ", 2)[0], "svc.termwalk => "+res+" "+crashReason(lastFailDetail))
+		}
+	}
 	if life != nil {
 		life.srv.Terminate()
 		life = nil
